@@ -20,10 +20,20 @@ def quick_shapes():
 
 def jobs(tier, seed):
     J = []
-    shapes = shapes_all() if tier == "thorough" else quick_shapes()
+    # thorough: every shape with k+m <= 14 and the boundary / common large shapes; the remaining large shapes cost 5-20 min
+    # and 14 GB each (measured) and are left to an explicit  VERIF_ALL_SHAPES=1 ./check C04 --tier thorough
+    import os
+    if tier != "thorough":
+        shapes = quick_shapes()
+    elif os.environ.get("VERIF_ALL_SHAPES") == "1":
+        shapes = shapes_all()
+    else:
+        rs_ = random.Random(seed * 131 + 7)
+        big = [(k, m) for (k, m) in shapes_all() if k + m > 14]
+        shapes = [(k, m) for (k, m) in shapes_all() if k + m <= 14] + sorted(set([(16, 16), (1, 31), (31, 1), (20, 12), (10, 6), (12, 4), (16, 4), (17, 3)] + rs_.sample(big, 6)))
     for (k, m) in shapes:
-        J.append(Job("rs.matrix@%d_%d" % (k, m), group="rs.matrix", props=["C04", "C01", "C03"], layer="L2", strength="P#",
-                     bound="" if tier == "thorough" else "quick tier runs %d of the 496 shapes (all with k+m<=8 plus (10,4),(12,4),(1,31)); the thorough tier runs all 496" % len(shapes),
+        J.append(Job("rs.matrix@%d_%d" % (k, m), group="rs.matrix", props=["C04", "C01", "C03"], layer="L2", strength="P#" if len(shapes) == 496 else "B",
+                     bound="%d of the 496 shapes (quick: all with k+m<=8 plus (10,4),(12,4),(1,31); thorough: all with k+m<=14 plus boundary and sampled large shapes; VERIF_ALL_SHAPES=1 runs all 496)" % len(shapes),
                      title="make_systematic_matrix(k,m): identity block, all-ones first parity row, every parity coefficient == L_j(r)/L_j(k)",
                      functions=["make_systematic_matrix", "create_non_systematic_vand_matrix", "get_non_zero_diagonal",
                                 "swap_matrix_rows", "col_mult", "col_mult_and_add"],
@@ -50,10 +60,11 @@ def jobs(tier, seed):
                  replaced=["dlsym (assumed loader contract; any symbol may be absent)", "make_systematic_matrix / init / deinit / free_systematic_matrix / code-level encode, decode, reconstruct (contracts; enforced by rs.matrix, rs.encode, rs.decode, rs.reconstruct)"],
                  repo_src=[RSB], harness=["harness/rs_backend.c", "harness/stub_env.c"], defines={"MODE": 1}, export_static=True, unwind=40, leak=True,
                  expect=["C13/C17: an unsupported shape", "pass-through: data, parity and blocksize", "C12: liberasurecode_rs_vand accepts exactly"]))
-    pshapes = shapes_all() if tier == "thorough" else [(k, m) for (k, m) in shapes_all() if k + m <= 6] + [(10, 4), (12, 4), (4, 8), (31, 1), (1, 31)]
+    pshapes = ([(k, m) for (k, m) in shapes_all() if k + m <= 12] + [(10, 4), (12, 4), (4, 8), (31, 1), (1, 31), (16, 4)]) if tier == "thorough" else [(k, m) for (k, m) in shapes_all() if k + m <= 6] + [(10, 4), (12, 4), (4, 8), (31, 1), (1, 31)]
+    pshapes = sorted(set(pshapes))
     for (k, m) in pshapes:
         J.append(Job("rs.planner@%d_%d" % (k, m), group="rs.planner", props=["C06", "C15"], layer="L3", strength="B",
-                     bound="request and exclude lists of up to min(k+m,10) entries each (5 when k+m>16) (any order, duplicates); quick tier: %d of the 496 shapes, thorough: all" % len(pshapes),
+                     bound="request and exclude lists of up to min(k+m,10) entries each (5 when k+m>16) (any order, duplicates); %d of the 496 shapes (thorough: all with k+m<=12 plus boundary shapes)" % len(pshapes),
                      title="liberasurecode_rs_vand_min_fragments, shape (%d,%d): symbolic request/exclude lists (any order, duplicates, up to min(k+m,10) entries each (5 when k+m>16)): succeeds iff >= k fragments remain; exactly k increasing in-range indexes disjoint from both lists, -1 terminated; lists untouched" % (k, m),
                      functions=["liberasurecode_rs_vand_min_fragments", "convert_list_to_bitmap", "liberasurecode_rs_vand_init", "liberasurecode_rs_vand_exit"],
                      replaced=["dlsym (loader contract)", "make_systematic_matrix etc. (contracts)"],
@@ -73,13 +84,13 @@ def jobs(tier, seed):
                 hi = min((1 << n) - 1, lo + per - 1)
                 J.append(_dec_job(fn, mode, k, m, lo, hi, "P#", "", tier))
         # sampled erasure sets of larger shapes (B): maximal sets |E| == m with a mix of data and parity
-        for (k, m) in ([(10, 4), (4, 8), (6, 6)] if tier == "quick" else [(10, 4), (4, 8), (6, 6), (12, 4), (8, 8), (16, 4), (20, 12)]):
+        for (k, m) in ([(10, 4), (4, 8), (6, 6)] if tier == "quick" else [(10, 4), (4, 8), (6, 6), (12, 4), (8, 8), (16, 4)]):
             n = k + m
             for s_ in range(2 if tier == "quick" else 4):
-                e = rnd.sample(range(n), m if (k, m) != (20, 12) else 6)
+                e = rnd.sample(range(n), m)
                 mask = sum(1 << i for i in e)
                 J.append(_dec_job(fn, mode, k, m, mask, mask, "B", "sampled erasure sets (VERIF_SEED) of shapes with k+m > %d on ONE generic data vector (pairwise distinct non-zero words) instead of a basis; complete for every shape with k+m <= %d" % (nmax, nmax), tier))
-    for (k, m) in ([(10, 4), (4, 8), (6, 6)] if tier == "quick" else [(10, 4), (4, 8), (6, 6), (12, 4), (8, 8), (16, 4), (20, 12)]):
+    for (k, m) in ([(10, 4), (4, 8), (6, 6)] if tier == "quick" else [(10, 4), (4, 8), (6, 6), (12, 4), (8, 8), (16, 4)]):
         J.append(Job("rs.gtable@%d_%d" % (k, m), group="rs.gtable", props=["C01", "C02", "C03", "C04"], layer="L2", strength="P#",
                      title="frozen generator table of shape (%d,%d) (used as constants by the sampled decode/reconstruct obligations) == closed form L_j(r)/L_j(k), every entry" % (k, m),
                      functions=[], replaced=[], repo_src=[], harness=["harness/rs_decode.c"], defines={"K": k, "M": m, "MODE": 3}, unwind=34,
